@@ -337,9 +337,9 @@ SubStep(st, fr) ==
          LET st1 == AddNode(AddNode(st, [Node("statcell", 0) EXCEPT !.g = FALSE]), [Node("status", n) EXCEPT !.c = id])
              st2 == [st1 EXCEPT !.statcells = Append(@, id)] IN
          Push(st2, <<Sub(S1(x), id + 1)>>)
-    [] o = "share" ->             \* ShareOp: one cell per built operator value (AST x), held for the whole call
+    [] o = "share" ->             \* ShareOp: one cell per built operator value (AST x); share2 releases it
          LET cell == st.shared[x] IN
-         Push(st, <<Acq(cell), Fr("share2", cell, "", U, x), F1("pushn", n), Rel(cell)>>)
+         Push(st, <<Acq(cell), Fr("share2", cell, "", U, x), F1("pushn", n)>>)
     [] o = "publish" ->           \* ConnectableObservable::actual_subscribe = subscribe its subject
          Push(st, <<Fr("ssub", st.nodes[st.shared[x]].n, "", U, n)>>)
     [] o \in SchedOps -> SchedSub(st, fr)
@@ -403,14 +403,15 @@ Step(st) ==
              obsn == s0.stack[1].n
              rest == [s0 EXCEPT !.stack = Tail(@)] IN
          IF cell.g
-         THEN Push(rest, <<Fr("ssub", cell.n, "", U, obsn), F1("mkrefcnt", cell.n)>>)
+         THEN Push(rest, <<Fr("ssub", cell.n, "", U, obsn), F1("mkrefcnt", cell.n), Rel(fr.n)>>)
          ELSE LET st1 == NewSubject(rest, FALSE, U)
                   sid == Len(st1.subj)
                   on == NextNode(st1)
                   st2 == AddNode([st1 EXCEPT !.nodes[fr.n].g = TRUE, !.nodes[fr.n].n = sid], [Node("subjobs", 0) EXCEPT !.c = sid])
-              IN (* the first subscriber joins the subject, THEN the subject is connected to the source; *)
-                 (* the subscription connect() returns is dropped                                        *)
-                 Push(st2, <<Fr("ssub", sid, "", U, obsn), Sub(S1(fr.x), on), F0("dropv"), F1("mkrefcnt", sid)>>)
+              IN (* the first subscriber joins the subject, the cell is released, THEN the subject is connected to the  *)
+                 (* source (which may emit at once and lead back to this very observable); the subscription connect()  *)
+                 (* returns is dropped                                                                                 *)
+                 Push(st2, <<Fr("ssub", sid, "", U, obsn), Rel(fr.n), Sub(S1(fr.x), on), F0("dropv"), F1("mkrefcnt", sid)>>)
     [] f = "pushn" -> s0          \* operand of share2
     [] f = "connect" ->           \* ConnectableObservable::connect(): subscribe the subject (as an observer) to the source
          LET cell == s0.nodes[s0.shared[fr.x]]
